@@ -14,6 +14,8 @@ def register(db):
     register_skip_node_scope(db)
     register_element_bind(db)
     register_leaf_nodes(db)
+    register_element_text(db)
+    register_bind_var(db)
     P = ["C15"]
     assume_method(db, "NodeParserObj", "start", raises=["ParserError", "ConverterError", "XmlContextError"])
     assume_method(db, "NodeParserObj", "end", returns="bool", raises=["ParserError", "ConverterError", "XmlContextError"])
@@ -225,3 +227,62 @@ def register_leaf_nodes(db):
                     ensures=COMMON + [("converted-as-the-xsi-type-datatype",
                                        f"call_arg('{PV}', 7)[0] is self.datatype.type and call_arg('{PV}', 9) == self.datatype.format")],
                     raises={"ParserError": True, "ConverterError": True}, properties=["C15", "C09"]))
+
+
+def register_element_text(db):
+    """ElementNode.bind_text: the text content of an element with a text field is converted once by parse_var with the
+    element's own prefix map; an xsi:nil element without text binds None; nothing is bound when the class has no text
+    field or there is no text (and the element is not nil)."""
+    from .c10_strictness import element_node, NODES
+    EL = f"{NODES}.element:ElementNode"
+    PV = "ParserUtils.parse_var"
+    collab.field(db, "XmlMeta", "text", "u:XmlVar|None")
+    NIL = "(self.xsi_nil is not None and self.xsi_nil)"
+    HAS_TEXT = "(text is not None and len(text) > 0)"
+    db.add(Contract(
+        f"{EL}.bind_text", params={"self": element_node, "params": "dict[str,u:Any|None]", "text": "str|None"},
+        ensures=[("nothing-to-bind", f"implies(self.meta.text is None or (text is None and not {NIL}), result == False and same_dict(params, old(params)))"),
+                 ("a-nil-element-without-text-binds-none",
+                  f"implies(self.meta.text is not None and {NIL} and not {HAS_TEXT}, result == True and called('{PV}') == 0)"),
+                 ("text-is-converted-once-in-the-element-own-scope",
+                  f"implies(self.meta.text is not None and text is not None and not ({NIL} and not {HAS_TEXT}), result == True and called('{PV}') == 1 and "
+                  f"call_arg('{PV}', 2) is some(self.meta.text) and call_arg('{PV}', 3) is self.config and call_arg('{PV}', 4) == text and call_arg('{PV}', 5) is self.ns_map)")],
+        raises={"ParserError": True, "ConverterError": True}, returns="bool", modifies=["params"], properties=["C15", "C09"],
+    ))
+
+
+def register_bind_var(db):
+    """ElementNode.bind_var: a child object goes into its field - a repeating field collects the objects in document
+    order (a pending collection is started by the first), a single-valued field takes the first object only: a second
+    one is refused (False: the caller looks for another field or reports the element), nothing is overwritten."""
+    from .c10_strictness import NODES
+    EL = f"{NODES}.element:ElementNode"
+
+    def cls_ref(mk, base):
+        from pyvc.values import ClassRef
+        return ClassRef(f"{NODES}.element", "ElementNode")
+
+    def pending(ex, st, cref, args, kwargs):
+        from pyvc.values import Opaque
+        st.trace.append(("call", "PendingCollection", None, tuple(args), ()))  # an abstract collection; its arguments on the ghost trace
+        yield st, Opaque("Any")
+
+    db.ctors[("xsdata.formats.dataclass.parsers.utils", "PendingCollection")] = pending
+    assume_method(db, "Any", "append", mutates=True)
+    db.add(Contract(
+        f"{EL}.bind_var", params={"cls": cls_ref, "params": "dict[str,u:Any]", "var": "opaque:XmlVar", "value": "opaque:Any"},
+        ensures=[("a-second-object-for-a-single-valued-field-is-refused-and-nothing-is-overwritten",
+                  "implies(var.init and not var.list_element and var.name in old(params), result == False and same_dict(params, old(params)))"),
+                 ("the-first-object-of-a-single-valued-field-is-stored",
+                  "implies(var.init and not var.list_element and not (var.name in old(params)), result == True and params[var.name] is value)"),
+                 ("a-repeating-field-always-accepts", "implies(var.init and var.list_element, result == True)"),
+                 ("the-first-object-of-a-repeating-field-starts-a-collection-holding-it",
+                  "implies(var.init and var.list_element and not (var.name in old(params)), called('PendingCollection') == 1 and "
+                  "len(call_arg('PendingCollection', 0)) == 1 and call_arg('PendingCollection', 0)[0] is value and call_arg('PendingCollection', 1) is var.factory "
+                  "and var.name in params)"),
+                 ("later-objects-of-a-repeating-field-are-appended-to-what-is-there",
+                  "implies(var.init and var.list_element and var.name in old(params), called('Any.append') == 1 and call_arg('Any.append', 0) is value "
+                  "and call_recv('Any.append') is old(params)[var.name] and same_dict(params, old(params)))"),
+                 ("a-field-that-is-not-a-constructor-argument-is-skipped", "implies(not var.init, result == True and same_dict(params, old(params)))")],
+        raises={}, returns="bool", modifies=["params"], properties=["C10", "C15"],
+    ))
